@@ -5,6 +5,7 @@ close, makedirs, chunked copy, unlink, descriptor temp writes, descriptor copy):
 right before event k. Post-crash monitor: if <out>/datapackage.json parses as JSON then every file it
 lists exists and has the recorded size and md5 (independent io-lab readers).
 """
+import copy
 import json
 import os
 import shutil
@@ -45,6 +46,11 @@ def gen_cases(tier, seed):
         i += 1
         yield {'family': fmt, 'sizes': [5, 1, 200], 'format': fmt, 'pretty': True, 'idx': i, 'seed': seed, 'tier': tier,
                'early_stop': True}
+    # the source of the first resource fails half way and a later step swallows the error
+    for fmt in ('csv', 'json'):
+        i += 1
+        yield {'family': fmt, 'sizes': [40, 3], 'format': fmt, 'pretty': True, 'idx': i, 'seed': seed, 'tier': tier,
+               'swallowed_failure': True}
     # add_filehash_to_path (with and without the resource-hash counter): the listed path must be the written one
     for fmt in ('csv', 'json'):
         for nohash in (False, True):
@@ -62,7 +68,8 @@ def run_case(case):
     scratch = os.getcwd()
     cfg = {'sizes': case['sizes'], 'format': case['format'], 'pretty': case['pretty'],
            'add_filehash_to_path': bool(case.get('filehash')), 'no_resource_hash': bool(case.get('no_resource_hash')),
-           'later_step_stops_reading_early': bool(case.get('early_stop'))}
+           'later_step_stops_reading_early': bool(case.get('early_stop')),
+           'source_fails_and_later_step_swallows': bool(case.get('swallowed_failure'))}
     F = [{'name': 'id', 'type': 'integer'}, {'name': 't', 'type': 'string'}, {'name': 'n', 'type': 'number'}]
     tables = [[{'id': r * 1000 + i, 't': 'żółć-%d "q", x' % i, 'n': 1.5 * i} for i in range(n)]
               for r, n in enumerate(case['sizes'])]
@@ -75,12 +82,27 @@ def run_case(case):
 
     def run_dump(out):
         steps = [lab.source('res%d' % i, F, t) for i, t in enumerate(tables)]
+        if case.get('swallowed_failure'):
+            def broken():
+                for n_, row in enumerate(copy.deepcopy(tables[0])):
+                    if n_ == len(tables[0]) // 2:
+                        raise IOError('source failed (connection reset)')
+                    yield row
+            steps[0] = d.load(({'resources': [{'name': 'res0', 'path': 'res0.csv', 'schema': {'fields': copy.deepcopy(F)}}]},
+                               [broken()]), strip=False)
         kw = {}
         if case.get('filehash'):
             kw['add_filehash_to_path'] = True
         if case.get('no_resource_hash'):
             kw['counters'] = {'resource-hash': None}
         steps.append(d.dump_to_path(out, format=case['format'], pretty_descriptor=case['pretty'], **kw))
+        if case.get('swallowed_failure'):
+            def tolerant(rows):
+                try:
+                    yield from rows
+                except Exception:
+                    pass
+            steps.append(tolerant)
         if case.get('early_stop'):
             import itertools
 
@@ -152,7 +174,7 @@ def run_case(case):
         rep['online_checks'] = plan.n
         return rep
     code, rec = crashlab.in_child(record, os.path.join(scratch, 'rep.json'))
-    assert code == 0 and rec and rec['ok'], (code, rec)
+    assert code == 0 and rec and (rec['ok'] or case.get('swallowed_failure')), (code, rec)
     counters['unshimmed_events'] += len(rec['unshimmed'])     # audit-level events (also crash points)
     trace = rec['trace']
     K = len(trace)
